@@ -7,6 +7,17 @@ CONSTANTS
   UKeys = {"u1"}
   UVals = {"p"}
   SKeys = {"s1"}
+  CTypes = {"", "json"}
+  CDescs = {""}
+  IKeys = {"s1:10.0.0.1:80"}
+  IWeights = {2, 3}
+  CaKeys = {"c1"}
+  CaVals = {"cv"}
+  TKeys = {}
+  TVals = {}
+  SrvIds = {}
+  Defect_McpStickyRefs = FALSE
+  Defect_McpRcLostAtSnapshot = FALSE
   HistMax = 2
   MaxLog = 3
   MaxOps = 100000
